@@ -37,6 +37,8 @@ import (
 	"github.com/bufbuild/verif/tape"
 	"github.com/bufbuild/verif/wsgen"
 	"google.golang.org/protobuf/proto"
+	"google.golang.org/protobuf/encoding/protowire"
+	"google.golang.org/protobuf/reflect/protoreflect"
 	"google.golang.org/protobuf/types/descriptorpb"
 	"google.golang.org/protobuf/types/pluginpb"
 )
@@ -51,6 +53,9 @@ type pluginSpec struct {
 	behaviour      string // normal | insert | insert-missing | duplicate | duplicate-spelling | duplicate-nested | hostile | error
 	hostileName    string
 	extraFile      string // an additional file this plugin produces (single-request plugins only)
+	tag            string   // names this plugin's files: plugins with different outs may share one
+	insertInto     int      // behaviour insert: index of the earlier plugin (same out) whose file receives the insertions
+	points         []string // behaviour insert: the insertion points used, in order
 }
 
 type request struct {
@@ -58,6 +63,42 @@ type request struct {
 	protoFiles []string
 	deps       map[string][]string
 	sourceDesc []string
+	// custom message option numbers seen per file, in the runtime view (proto_file) and in
+	// source_file_descriptors
+	runtimeOpts map[string]map[int32]bool
+	sourceOpts  map[string]map[int32]bool
+}
+
+// messageOptionNumbers returns the field numbers present as unknown fields (custom options
+// are extensions nobody registered here) in the options of the file's top-level messages.
+func messageOptionNumbers(fd *descriptorpb.FileDescriptorProto) map[int32]bool {
+	out := map[int32]bool{}
+	for _, msg := range fd.GetMessageType() {
+		if msg.GetOptions() == nil {
+			continue
+		}
+		b := msg.GetOptions().ProtoReflect().GetUnknown()
+		for len(b) > 0 {
+			num, typ, n := protowire.ConsumeTag(b)
+			if n < 0 {
+				break
+			}
+			b = b[n:]
+			n = protowire.ConsumeFieldValue(num, typ, b)
+			if n < 0 {
+				break
+			}
+			b = b[n:]
+			out[int32(num)] = true
+		}
+		msg.GetOptions().ProtoReflect().Range(func(fdesc protoreflect.FieldDescriptor, _ protoreflect.Value) bool {
+			if fdesc.IsExtension() {
+				out[int32(fdesc.Number())] = true
+			}
+			return true
+		})
+	}
+	return out
 }
 
 type gsim struct {
@@ -109,7 +150,7 @@ type handler struct {
 }
 
 func outName(spec *pluginSpec, protoPath string) string {
-	return strings.TrimSuffix(protoPath, ".proto") + "." + spec.name + ".txt"
+	return strings.TrimSuffix(protoPath, ".proto") + "." + spec.tag + ".txt"
 }
 
 func (h *handler) Handle(ctx context.Context, _ protoplugin.PluginEnv, w protoplugin.ResponseWriter, r protoplugin.Request) error {
@@ -123,14 +164,16 @@ func (h *handler) Handle(ctx context.Context, _ protoplugin.PluginEnv, w protopl
 	if d.Dead {
 		return sched.ErrCrashed
 	}
-	req := &request{deps: map[string][]string{}}
+	req := &request{deps: map[string][]string{}, runtimeOpts: map[string]map[int32]bool{}, sourceOpts: map[string]map[int32]bool{}}
 	req.toGenerate = append(req.toGenerate, cgr.GetFileToGenerate()...)
 	for _, fd := range cgr.GetProtoFile() {
 		req.protoFiles = append(req.protoFiles, fd.GetName())
 		req.deps[fd.GetName()] = fd.GetDependency()
+		req.runtimeOpts[fd.GetName()] = messageOptionNumbers(fd)
 	}
 	for _, fd := range cgr.GetSourceFileDescriptors() {
 		req.sourceDesc = append(req.sourceDesc, fd.GetName())
+		req.sourceOpts[fd.GetName()] = messageOptionNumbers(fd)
 	}
 	m.mu.Lock()
 	m.reqs[spec.index] = append(m.reqs[spec.index], req)
@@ -150,7 +193,7 @@ func (h *handler) Handle(ctx context.Context, _ protoplugin.PluginEnv, w protopl
 		})
 	}
 	for _, p := range cgr.GetFileToGenerate() {
-		add(outName(spec, p), fmt.Sprintf("generated by %s from %s\n// @@protoc_insertion_point(slot)\nend\n", spec.name, p), "")
+		add(outName(spec, p), fmt.Sprintf("generated by %s from %s\n// @@protoc_insertion_point(slot)\nbody {\n    // @@protoc_insertion_point(inner)\n}\nend\n", spec.name, p), "")
 	}
 	if spec.extraFile != "" && first != "" {
 		add(spec.extraFile, "extra file of "+spec.name+"\n", "")
@@ -158,10 +201,16 @@ func (h *handler) Handle(ctx context.Context, _ protoplugin.PluginEnv, w protopl
 	var herr error
 	switch spec.behaviour {
 	case "insert":
-		// insert into what the previous plugin (same out) generated for our first file
+		// insert into what an earlier plugin (same out) generated for our first file
 		if spec.index > 0 && first != "" {
-			prev := m.plugins[spec.index-1]
-			add(outName(prev, first), "inserted by "+spec.name, "slot")
+			target := m.plugins[spec.insertInto]
+			for k, point := range spec.points {
+				content := fmt.Sprintf("inserted by %s #%d", spec.name, k)
+				if k%2 == 1 {
+					content += "\nsecond line of #" + fmt.Sprint(k) + "\n"
+				}
+				add(outName(target, first), content, point)
+			}
 		}
 	case "insert-missing":
 		if first != "" {
@@ -264,7 +313,8 @@ func (m *gsim) drawPlugins() string {
 		special = m.tp.Draw("g.special", n)
 	}
 	for i := 0; i < n; i++ {
-		p := &pluginSpec{index: i, name: fmt.Sprintf("sim%d", i), behaviour: "normal"}
+		p := &pluginSpec{index: i, name: fmt.Sprintf("sim%d", i), behaviour: "normal", insertInto: -1}
+		p.tag = p.name
 		p.out = tape.Pick(m.tp, "g.out", outs)
 		if v2 && m.tp.Draw("g.absout", 6) == 5 {
 			// an absolute out: with a base out directory it still has to land (and be cleaned) below the base
@@ -274,6 +324,12 @@ func (m *gsim) drawPlugins() string {
 		p.includeImports = m.tp.Draw("g.imports", 2) == 1
 		// include_wkt is only accepted together with include_imports
 		p.includeWKT = p.includeImports && m.tp.Draw("g.wkt", 2) == 1
+		if i > 0 && m.tp.Draw("g.sharetag", 4) == 3 {
+			// the same relative file names as an earlier plugin that writes somewhere else
+			if q := m.plugins[m.tp.Draw("g.tagof", i)]; outRel(q.out) != outRel(p.out) {
+				p.tag = q.tag
+			}
+		}
 		if i == special {
 			p.behaviour = tape.Pick(m.tp, "g.behaviour", []string{"insert", "insert-missing", "duplicate", "hostile", "error", "duplicate-spelling", "duplicate-nested"})
 			if p.behaviour == "duplicate-spelling" || p.behaviour == "duplicate-nested" {
@@ -300,10 +356,16 @@ func (m *gsim) drawPlugins() string {
 				if i == 0 {
 					p.behaviour = "normal"
 				} else {
-					// must share the output location with the previous plugin
-					p.out = m.plugins[i-1].out
-					// and receive the same files: same strategy and import settings
+					// must share the output location with the earlier plugin it refers to
 					prev := m.plugins[i-1]
+					if p.behaviour == "insert" {
+						prev = m.plugins[m.tp.Draw("g.insertinto", i)]
+						p.insertInto = prev.index
+						p.points = drawPoints(m.tp)
+					}
+					p.out = prev.out
+					p.tag = p.name
+					// and receive the same files: same strategy and import settings
 					p.strategy, p.includeImports, p.includeWKT = prev.strategy, prev.includeImports, prev.includeWKT
 				}
 			}
@@ -312,6 +374,29 @@ func (m *gsim) drawPlugins() string {
 			}
 		}
 		m.plugins = append(m.plugins, p)
+	}
+	if n == 4 && m.tp.Draw("g.crossout", 3) == 2 {
+		// two receivers with the same relative file names in two output directories, each with its
+		// own inserting plugin, in a tape-chosen order that keeps every receiver before its inserter
+		order := tape.Pick(m.tp, "g.crossorder", [][4]string{
+			{"Ra", "Rb", "Wa", "Wb"}, {"Ra", "Rb", "Wb", "Wa"}, {"Ra", "Wa", "Rb", "Wb"}, {"Rb", "Ra", "Wa", "Wb"}, {"Rb", "Wb", "Ra", "Wa"}, {"Ra", "Rb", "Wa", "Wa2"},
+		})
+		strategy := tape.Pick(m.tp, "g.strategy", []string{"directory", "all"})
+		at := map[string]int{}
+		for i, role := range order {
+			p := m.plugins[i]
+			*p = pluginSpec{index: i, name: p.name, behaviour: "normal", insertInto: -1, strategy: strategy, tag: "shared"}
+			p.out = "gen/a"
+			if strings.HasSuffix(role, "b") {
+				p.out = "gen/b"
+			}
+			if role[0] == 'W' {
+				p.behaviour, p.tag = "insert", p.name
+				p.insertInto = at["R"+role[1:2]]
+				p.points = drawPoints(m.tp)
+			}
+			at[role] = i
+		}
 	}
 	for _, p := range m.plugins {
 		if v2 {
@@ -329,6 +414,16 @@ func (m *gsim) drawPlugins() string {
 		}
 	}
 	return y.String()
+}
+
+// drawPoints picks the insertion points one inserting plugin uses (a point may be used twice).
+func drawPoints(tp *tape.Tape) []string {
+	n := 1 + tp.Draw("g.npoints", 3)
+	var out []string
+	for i := 0; i < n; i++ {
+		out = append(out, tape.Pick(tp, "g.point", []string{"slot", "inner"}))
+	}
+	return out
 }
 
 // outRel is where a plugin's out ends up below the base out directory: buf joins the base and
@@ -423,7 +518,7 @@ func Run(tp *tape.Tape, env *engine.Env) *engine.Outcome {
 	verifhook.SetHandler(hooks)
 	defer verifhook.SetHandler(nil)
 	m := &gsim{tp: tp, s: s, env: env, reqs: map[int][]*request{}, produced: map[int]map[string][]genFile{}}
-	m.ws = wsgen.New(tp, wsgen.Options{MaxModules: 2, MaxFiles: 8, Targeting: true, SupplyWKT: wktContent})
+	m.ws = wsgen.New(tp, wsgen.Options{MaxModules: 2, MaxFiles: 8, Targeting: true, SupplyWKT: wktContent, CustomOptions: true})
 	image, err := m.buildImage()
 	if err != nil {
 		s.Violate("harness-image", "harness|image", "cannot build the image: %v", err)
@@ -509,6 +604,25 @@ func Run(tp *tape.Tape, env *engine.Env) *engine.Outcome {
 						m.violate("request-closed-and-ordered", "request", "plugin %s: %s comes before its dependency %s", p.name, n, d)
 					}
 				}
+			}
+			// source-retention options: gone from the runtime view of the files to generate, kept in
+			// source_file_descriptors; runtime-retention options are kept in both
+			for _, f := range r.toGenerate {
+				wf := m.ws.Files[f]
+				if wf == nil || !wf.HasCustomOptions {
+					continue
+				}
+				rt, src := r.runtimeOpts[f], r.sourceOpts[f]
+				if rt[wsgen.SourceOptionNumber] {
+					m.violate("request-closed-and-ordered", "source-retention", "plugin %s: the runtime view of %s still carries its source-retention option", p.name, f)
+				}
+				if !rt[wsgen.RuntimeOptionNumber] {
+					m.violate("request-closed-and-ordered", "source-retention", "plugin %s: the runtime view of %s lost its runtime-retention option", p.name, f)
+				}
+				if src != nil && (!src[wsgen.SourceOptionNumber] || !src[wsgen.RuntimeOptionNumber]) {
+					m.violate("request-closed-and-ordered", "source-retention", "plugin %s: the source descriptor of %s lacks a custom option (have %v)", p.name, f, src)
+				}
+				m.s.Probe("source-retention-checked")
 			}
 			if strings.Join(r.sourceDesc, ",") != strings.Join(r.toGenerate, ",") {
 				m.violate("request-closed-and-ordered", "source-descriptors", "plugin %s: source file descriptors %v do not match files to generate %v", p.name, r.sourceDesc, r.toGenerate)
@@ -598,6 +712,9 @@ func Run(tp *tape.Tape, env *engine.Env) *engine.Outcome {
 			for _, p := range m.plugins {
 				if p.behaviour == "insert" {
 					s.Probe("insertion-point-applied")
+					if p.insertInto != p.index-1 {
+						s.Probe("insertion-into-non-adjacent-plugin")
+					}
 				}
 			}
 		}
